@@ -24,7 +24,7 @@ def bounds(tier):
     return "all sequences over the 20 letters with 1 <= N <= %d, split by composition (n+, n-)" % (NMAX[tier],)
 
 
-NMAX = {"quick": 8, "thorough": 12}
+NMAX = {"quick": 8, "thorough": 10}
 
 
 def items(tier, seed):
@@ -55,12 +55,19 @@ def run_item(item):
     prelude = std_prelude(N, a, b)
     run_prelude(prelude)
 
+    HIST = [("get_linear_NCPR", (2,)), ("get_linear_FCR", (2,)), ("get_linear_sigma", (2,)), ("get_linear_hydropathy", (2,)), ("get_countNeg", ()), ("get_phasePlotRegion", ())] if N >= 2 else []
+
     def thunk():
         sp = I.call(SequenceParameters, [s], {})
-        return I.call(sp.get_delta, [], {})
+        first = I.call(sp.get_delta, [], {})
+        # the same object after other read-only queries (they must not disturb the stored charge pattern)
+        for name, args in HIST:
+            I.call(getattr(sp, name), list(args), {})
+        again = I.call(sp.get_delta, [], {})
+        return first, again
 
     def cex(m):
-        return dict(seq=seq_of_model(m, vs), prelude=prelude)
+        return dict(seq=seq_of_model(m, vs), prelude=prelude, history=[[n_, list(a_)] for n_, a_ in HIST])
     for pc, out in I.explore(thunk):
         if out[0] == "gap":
             res["inconclusive"].append("ENCODING-GAP: " + out[1])
@@ -76,9 +83,11 @@ def run_item(item):
         m = ob.witness(label=item["name"])
         if m is None:
             continue
-        val = out[1]
+        val, again = out[1]
         d = zreal(val)
         ob.prove(within(d - spec, TOL), "delta == Das-Pappu definition", cex)
+        e_ = sym_equal(I, again, val, TOL)
+        ob.prove(zbool(e_) if e_ is not None else False, "delta unchanged after other read-only queries on the same object", cex)
         if len(res["samples"]) < 2:
             res["samples"].append(dict(item=item["name"], witness=seq_of_model(m, vs), obligation="|delta_impl - delta_spec| <= 1e-9 for all %d-mers with (n+,n-)=(%d,%d)" % (N, a, b)))
         # translator validation on the witness and a few random members of the composition
@@ -102,9 +111,15 @@ def replay(cex):
     seq = cex["seq"]
     want = S.delta_exact(seq)
     try:
-        got = SequenceParameters(seq).get_delta()
+        sp = SequenceParameters(seq)
+        got = sp.get_delta()
+        for name, args in cex.get("history", []):
+            getattr(sp, name)(*args)
+        again = sp.get_delta()
     except Exception as ex:
         return True, "get_delta(%s) raised %s: %s" % (seq, type(ex).__name__, ex)
+    if abs(float(again) - float(want)) > TOL:
+        return True, "seq=%s get_delta after %r on the same object = %r, definition %r" % (seq, cex.get("history"), again, float(want))
     bad = abs(float(got) - float(want)) > TOL
     return bad, "seq=%s get_delta=%r definition=%r" % (seq, got, float(want))
 
@@ -114,4 +129,5 @@ def finding_key(cex):
 
 
 def fallback(item):
-    return [dict(seq=q, prelude=std_prelude(item["N"], item["npos"], item["nneg"])) for q in fallback_seqs(item)]
+    hist = [["get_linear_NCPR", [2]], ["get_linear_FCR", [2]], ["get_linear_sigma", [2]], ["get_linear_hydropathy", [2]]] if item["N"] >= 2 else []
+    return [dict(seq=q, prelude=std_prelude(item["N"], item["npos"], item["nneg"]), history=hist) for q in fallback_seqs(item)]
